@@ -79,6 +79,8 @@ type xnode struct {
 type retRec struct {
 	cond *Term
 	vals []Val
+	env  map[ssa.Value]Val
+	blk  *ssa.BasicBlock
 	mem  *Mem
 	gh   *Ghost
 	st   pathFlags
@@ -712,6 +714,35 @@ func (e *Engine) position(p token.Pos) token.Position {
 	return e.prog.Fset.Position(p)
 }
 
+// rangeLen finds, for a #rangeindex phi, the length value it is compared with
+// in the loop header (t = phi + 1; if t < len).
+func rangeLen(phi *ssa.Phi) ssa.Value {
+	for _, ins := range phi.Block().Instrs {
+		b, ok := ins.(*ssa.BinOp)
+		if !ok || b.Op != token.LSS {
+			continue
+		}
+		if inc, ok := b.X.(*ssa.BinOp); ok && inc.Op == token.ADD && inc.X == phi {
+			return b.Y
+		}
+	}
+	return nil
+}
+
+// rangeInv is the implicit invariant -1 <= phi < len of a range-over-slice loop.
+func (f *Frame) rangeInv(env map[ssa.Value]Val, phi *ssa.Phi, v *Term) *Term {
+	tb := f.e.tb
+	inv := tb.Sle(tb.ConstI(-1, v.sort.W), v)
+	if l := rangeLen(phi); l != nil {
+		if lv, ok := env[l]; ok {
+			inv = tb.And(inv, tb.Slt(v, lv.(Scalar).T))
+		} else if c, ok := l.(*ssa.Const); ok {
+			inv = tb.And(inv, tb.Slt(v, f.e.constVal(c).(Scalar).T))
+		}
+	}
+	return inv
+}
+
 // ---------------------------------------------------------------------------
 // loop cut
 
@@ -729,7 +760,7 @@ func (f *Frame) cutLoop(n *xnode, li *loopInfo, st *execState) {
 		}
 		if phi.Comment == "rangeindex" {
 			v := st.env[phi].(Scalar).T
-			f.oblige(st, "invariant", fmt.Sprintf("L%d.rangeindex.entry", li.ordinal), st.reach, e.tb.Sle(e.tb.ConstI(-1, v.sort.W), v), li.header.Instrs[0].Pos(), "range index starts at -1")
+			f.oblige(st, "invariant", fmt.Sprintf("L%d.rangeindex.entry", li.ordinal), st.reach, f.rangeInv(st.env, phi, v), li.header.Instrs[0].Pos(), "range index starts at -1, below the length")
 		}
 	}
 	// 1. invariant on entry
@@ -765,7 +796,7 @@ func (f *Frame) cutLoop(n *xnode, li *loopInfo, st *execState) {
 	for _, phi := range phis {
 		if phi.Comment == "rangeindex" {
 			v := st.env[phi].(Scalar).T
-			e.assume(tb.Implies(st.reach, tb.And(tb.Sle(tb.ConstI(-1, v.sort.W), v), tb.Slt(v, tb.ConstU(1<<62, v.sort.W)))))
+			e.assume(tb.Implies(st.reach, f.rangeInv(st.env, phi, v)))
 		}
 	}
 	memBefore := st.mem
@@ -838,7 +869,7 @@ func (f *Frame) backEdge(n *xnode, li *loopInfo, st *execState, cond *Term) {
 				v := f.operand(st.env, phi.Edges[idx]).(Scalar).T
 				st2 := *st
 				f.oblige(&st2, "invariant", fmt.Sprintf("L%d.rangeindex.preserved", li.ordinal), cond,
-					e.tb.And(e.tb.Sle(e.tb.ConstI(-1, v.sort.W), v), e.tb.Slt(v, e.tb.ConstU(1<<62, v.sort.W))), n.blk.Instrs[len(n.blk.Instrs)-1].Pos(), "range index stays in [-1, 2^62)")
+					f.rangeInv(st.env, phi, v), n.blk.Instrs[len(n.blk.Instrs)-1].Pos(), "range index stays in [-1, len)")
 			}
 		}
 	}
@@ -901,7 +932,7 @@ func (f *Frame) execBlock(n *xnode, st *execState) {
 			for i, r := range x.Results {
 				vals[i] = f.operand(st.env, r)
 			}
-			f.rets = append(f.rets, retRec{cond: st.reach, vals: vals, mem: st.mem, gh: st.gh, st: st.st})
+			f.rets = append(f.rets, retRec{cond: st.reach, vals: vals, env: st.env, blk: n.blk, mem: st.mem, gh: st.gh, st: st.st})
 			f.retPos = x.Pos()
 			return
 		case *ssa.Panic:
